@@ -1,7 +1,7 @@
 META = dict(
     engine='seqx',
     technique='explicit-state model checking: BFS to closure over all reachable allocator states (segmentation + size-tree shape + free-list order) of the real zone_malloc.c driven by malloc(k units)/free(live allocation), shadow-map oracle in every state',
-    level_text='For every zone size 1..10 units (quick) / 1..13 units (thorough) all reachable allocator states are enumerated to closure on the real implementation, and every malloc/free transition is checked: address inside the zone, unit aligned, no overlap with a live allocation, NULL exactly when no free run of k units exists in the shadow map, adjacent free runs merged, zone_in_use/zone_debug equal the live sum, every free run in exactly one size list of the right key, no empty size list in the tree, search order of the tree. Zones of 14..16 units are explored for all histories up to a bounded depth (thorough).',
+    level_text='For every zone size 1..10 units (quick) / 1..13 units (thorough) all reachable allocator states are enumerated to closure on the real implementation, and every malloc/free transition is checked: address inside the zone, unit aligned, no overlap with a live allocation, NULL exactly when no free run of k units exists in the shadow map, adjacent free runs merged, zone_in_use/zone_debug equal the live sum, every free run in exactly one size list of the right key, no empty size list in the tree, search order of the tree. Zones of 14..16 units are explored for all histories of up to 10 operations (thorough).',
     level_note='Sequential use (the allocator serialises callers with one lock); only legal calls (free of a live allocation, size >= 1 byte); unit size 16 bytes, sizes k*16 (k even) and (k-1)*16+1 (k odd, round-up path); which of several sufficient runs is chosen is observed, not constrained.',
 )
 RULE = ("BFS over malloc/free histories on the real allocator, deduplicated by canonical (segmentation with back pointers, tree shape+colour+keys, "
